@@ -1671,6 +1671,8 @@ def computed_submodule_names(rep, idx):
                     alt = True                              # positional name
                 if isinstance(x, ast.Yield) and isinstance(x.value, ast.Tuple) and x.value.elts and positional(x.value.elts[0]):
                     alt = True
+                if isinstance(x, ast.IfExp) and (positional(x.body) or positional(x.orelse)):
+                    alt = True                              # the name itself is a choice between the joined and the positional one
         if not joins:
             rep.unk("C19.15", f.site, what, verdict[1])
         elif ev is None:
